@@ -141,6 +141,8 @@ class Ast:
                     self.fn.setdefault(prev, n)
                     prev = (self.decl.get(prev) or {}).get("previousDecl")
         for c in n.get("inner", []) or []:
+            if isinstance(c, dict):
+                c["_parent_kind"] = k
             self._index(c, new_scope)
 
 
